@@ -2,7 +2,7 @@
 vyper/codegen/jumptable_utils.py (_image_of, find_magic_for, _mk_buckets, _dense_jumptable_info) to Gallina.
 
 Output (coq/C07/GenJumptable.v) uses the jres monad of C07/Jumptable.v and the dict/set helpers of
-C07/GenSupport.v.  C07/Bridge.v proves every generated function equal to the hand model the theorems are
+C07/JtSupport.v.  C07/Bridge.v proves every generated function equal to the hand model the theorems are
 stated about, so the theorems are re-checked against what the source says on every run.
 
 Subset (anything else raises Unsupported, which the check reports as translator-rejected):
@@ -363,14 +363,35 @@ class JT:
         for f in FUNCS:
             self.function(f)
         hdr = ["(* GENERATED by tools/vlib/c07_jt2coq.py from vyper/codegen/jumptable_utils.py -- do not edit *)",
-               "From Coq Require Import ZArith List Bool.", "From Verif Require Import C07.Jumptable C07.GenSupport.",
+               "From Coq Require Import ZArith List Bool.", "From Verif Require Import C07.GenConsts C07.Jumptable C07.JtSupport.",
                "Import ListNotations.", "Open Scope Z_scope.", ""]
-        consts = [f"Definition g_{c} : Z := {self.consts[c]}." for c in self.used_consts]
+        extra = [c for c in self.used_consts if c not in CONST_NAMES]
+        consts = [f"Definition g_{c} : Z := {self.consts[c]}." for c in extra]
         return "\n".join(hdr + consts + [""] + self.out) + "\n"
 
 
 def generate():
     return JT().render()
+
+
+CONST_NAMES = ["BITS_MAGIC", "START_BUCKET_SIZE"]
+CONST_DEFAULTS = {"BITS_MAGIC": 24, "START_BUCKET_SIZE": 5}
+
+
+def generate_consts(fallback=False):
+    """coq/C07/GenConsts.v: the module-level int constants, read from the source AST.
+    fallback=True writes the last known values (only so that Search can still run after a rejection)."""
+    vals = dict(CONST_DEFAULTS)
+    if not fallback:
+        jt = JT()
+        for c in CONST_NAMES:
+            if c not in jt.consts:
+                raise Unsupported(f"module constant {c} not found in {MODULE}")
+            vals[c] = jt.consts[c]
+    lines = ["(* GENERATED by tools/vlib/c07_jt2coq.py from vyper/codegen/jumptable_utils.py -- do not edit *)",
+             "From Coq Require Import ZArith.", "Open Scope Z_scope."]
+    lines += [f"Definition g_{c} : Z := {vals[c]}." for c in CONST_NAMES]
+    return "\n".join(lines) + "\n"
 
 
 if __name__ == "__main__":
